@@ -357,6 +357,16 @@ def call_mid(pl, meth, w, flavour, use_default=False, bo=None, form=None, werr=F
 
 # ------------------------------------------------------------------ generators
 def gen_particle(rng, style):
+    if style == "zero":
+        # numeric extreme "exactly zero": a particle moving along the beam axis (pT = 0.0), slow (|y| small), or -
+        # rarely - one without any momentum (pT = mT = 0.0; only its space-time rapidity is finite)
+        if rng.random() < 0.12:
+            t = rng.uniform(1.0, 10.0)
+            return [0.0, 0.0, 0.0, 0.0, t, t * rng.uniform(-0.3, 0.3)]
+        pz = rng.choice([0.0, 0.125, -0.25, 0.5, -1.0])
+        m = rng.choice([0.5, 1.0, 2.0])
+        t = rng.uniform(1.0, 10.0)
+        return [0.0, 0.0, pz, math.sqrt(m * m + pz * pz), t, t * rng.uniform(-0.3, 0.3)]
     if style == "dyadic":
         px = rng.randint(-24, 24) / 8.0
         py = 0.0 if rng.random() < 0.7 else rng.randint(-8, 8) / 8.0
@@ -380,7 +390,14 @@ def gen_events(rng, allow_unset=True):
     style = "dyadic" if rng.random() < 0.5 else "generic"
 
     def ev(lo=1):
-        return [gen_particle(rng, style) for _ in range(rng.randint(lo, 10))]
+        r = rng.random()
+        if r < 0.07:   # every particle of the event has pT exactly 0 (its mean pT is 0.0 and still counts)
+            return [gen_particle(rng, "zero") for _ in range(rng.randint(1, 3))]
+        out = [gen_particle(rng, style) for _ in range(rng.randint(lo, 10))]
+        if r < 0.14:   # a few such particles among ordinary ones
+            for _ in range(rng.randint(1, 2)):
+                out.insert(rng.randrange(len(out) + 1), gen_particle(rng, "zero"))
+        return out
 
     alias = None
     r = rng.random()
@@ -937,6 +954,9 @@ def ref_mean(y, x, w):
     return sum(means) / len(means) if means else Fraction(0)
 
 
+_WRITE_TICK = [0]
+
+
 def check_write(h, tmpdir):
     """write the returned histogram and read it back; None or (key, what)"""
     path = os.path.join(tmpdir, "h.csv")
@@ -1044,7 +1064,8 @@ def oracle_dn(evs, meth, b, tmpdir=None, alias=None, shared=None, mutate=None, h
     hb = [float(x) for x in h.bin_boundaries()]
     if hb != edges:
         return (f"{meth}/bin-edges", f"{meth}({btxt}) returned a histogram with edges {hb}, the binning asked for has {edges}", {})
-    if tmpdir is not None:
+    _WRITE_TICK[0] += 1
+    if tmpdir is not None and _WRITE_TICK[0] % 3 == 0:  # every third returned histogram is written and read back
         r = check_write(h, tmpdir)
         if r:
             return (r[0], r[1], {})
